@@ -7,6 +7,7 @@
 From Coq Require Import List NArith ZArith Bool String Permutation.
 From Verif Require Import Lib.Bytes Sni.Wire Sni.WireProofs Sni.WireGen Gen.WireSchema.
 From Verif Require Import Sni.RpcCtx Sni.RpcCtxProofs Sni.RpcShut Sni.WireCaller.
+From Verif Require Sni.WireCut.
 From Verif Require Import Sni.SchedSkel Sni.Rpc Sni.RpcProofs Sni.RpcGen Sni.RpcFine Gen.TransportSkel.
 Import ListNotations.
 Local Open Scope N_scope.
@@ -311,6 +312,58 @@ Theorem C03_reply_decoder_cap_limit_refuted :
   caller_array_after (lenN window) window behind (init reply_field) = [0; 0; 9; 9; 9].
 Proof. exact reply_decoder_cap_limit_refuted. Qed.
 Print Assumptions C03_reply_decoder_cap_limit_refuted.
+
+(** ** How the bytes of a reply are cut does not matter (Sni/WireCut.v)
+
+    The frame reader hands a frame out in pieces (websocket fragments, the
+    network connection's reads).  With the header fetched by a full read --
+    which is what the source does: handleMessage makes no read of its own on
+    the frame reader, and every read of the decoder is a full read -- what
+    happens to a frame (dropped as a small packet, or header and body handed
+    on to look the call up, decode and complete it) is a function of the
+    frame's bytes alone. *)
+Theorem C03_delivery_independent_of_chunking :
+  forall R (k : list N -> list N -> R) small (cs cs' : WireCut.chunks),
+  List.concat cs = List.concat cs' ->
+  WireCut.handle WireCut.read_full k small cs = WireCut.handle WireCut.read_full k small cs'.
+Proof. exact WireCut.delivery_independent_of_chunking. Qed.
+Print Assumptions C03_delivery_independent_of_chunking.
+
+(** A frame with a complete header is never dropped as a small packet. *)
+Theorem C03_complete_frame_not_dropped : forall R (k : list N -> list N -> R) small (cs : WireCut.chunks),
+  (WireCut.header_len <= List.length (List.concat cs))%nat ->
+  WireCut.handle WireCut.read_full k small cs
+  = k (firstn WireCut.header_len (List.concat cs)) (skipn WireCut.header_len (List.concat cs)).
+Proof. exact WireCut.complete_frame_not_dropped. Qed.
+Print Assumptions C03_complete_frame_not_dropped.
+
+Theorem C03_frame_reads_are_full :
+  (gen_handleMessage_direct_reads = [] /\ gen_handleMessage_drains = ["io.Copy(io.Discard, r)"%string]) /\
+  gen_decoder_reads =
+    [ ("decoder.read", "io.ReadFull", "once");
+      ("decoder.rest", "io.ReadAll", "once");
+      ("decoder.bytes", "io.CopyN", "once");
+      ("decoder.end", "d.r.Read", "in a loop until EOF or error") ]%string.
+Proof. exact (conj gen_handleMessage_no_direct_reads gen_decoder_reads_full). Qed.
+Print Assumptions C03_frame_reads_are_full.
+
+(** The seeded change C03-j, kept as a counter-model: the header fetched
+    with ONE Read.  The same reply is delivered when it comes in one piece
+    and dropped -- the call never completes -- when its first fragment has
+    nine bytes or the connection hands out seven bytes per read; the full
+    read delivers it every time. *)
+Theorem C03_single_read_header_refuted :
+  let r := WireCut.reply_1 in
+  let ok := Some (firstn 10 r, skipn 10 r) in
+  WireCut.handle WireCut.read_once WireCut.delivered None [r] = ok /\
+  WireCut.handle WireCut.read_once WireCut.delivered None [firstn 9 r; skipn 9 r] = None /\
+  WireCut.handle WireCut.read_once WireCut.delivered None
+    [firstn 7 r; firstn 7 (skipn 7 r); skipn 14 r] = None /\
+  WireCut.handle WireCut.read_full WireCut.delivered None [firstn 9 r; skipn 9 r] = ok /\
+  WireCut.handle WireCut.read_full WireCut.delivered None
+    [firstn 7 r; firstn 7 (skipn 7 r); skipn 14 r] = ok.
+Proof. exact WireCut.single_read_header_refuted. Qed.
+Print Assumptions C03_single_read_header_refuted.
 
 (** The tie to the source: the functions the model was written against have
     the frozen statement skeletons, [pending] is owned by [serve], the type
